@@ -179,7 +179,7 @@ def corruptions(rs, root):
     inner = [n for n in nodes_of(base) if n.children]
     if not inner:
         return
-    for name in ['overlap-keep-union', 'gap', 'missing-weight', 'extra-weight', 'id-clash', 'id-gap', 'childless', 'cycle', 'sum-scope']:
+    for name in ['overlap-keep-union', 'overlap-non-adjacent', 'gap', 'missing-weight', 'extra-weight', 'id-clash', 'id-gap', 'childless', 'cycle', 'sum-scope']:
         r = copy.deepcopy(root)
         ns = nodes_of(r)
         prods = [n for n in ns if isinstance(n, Product)]
@@ -191,6 +191,13 @@ def corruptions(rs, root):
                 # child a additionally claims a variable of child b: union unchanged, overlap introduced
                 extra = raw('prod', list(a.scope) + [b.scope[0]], [a, raw('leaf', [b.scope[0]])])
                 p.children = [extra] + list(p.children[1:])
+                assign_ids(r)
+                yield name, r
+        elif name == 'overlap-non-adjacent' and prods:
+            # a further child, placed LAST, repeats a variable of the FIRST child: with >= 3 children the two are not adjacent
+            p = prods[rs.randint(len(prods))]
+            if len(p.children) >= 2:
+                p.children = list(p.children) + [raw('leaf', [p.children[0].scope[0]])]
                 assign_ids(r)
                 yield name, r
         elif name == 'gap' and prods:
@@ -302,6 +309,18 @@ def run(ctx):
                 root = build_small(t, id_mode, wd)
                 n_exh += 1
                 if not compare(ctx, root, f'exh{n}', sample=None if n_exh % 500 else dict(table=raw_table(root), impl=impl_verdict(root))):
+                    if ctx.n_new() >= 3:
+                        return
+    # inner node with three leaf children: every scope labelling (catches checks that only look at neighbouring children)
+    for kind in ('prod', 'sum'):
+        for sc in itertools.product([[0], [1], [2], [0, 1]], repeat=3):
+            for top in ([0, 1], [0, 1, 2], [0], [1, 0]):
+                kids = [raw('leaf', s_) for s_ in sc]
+                root = raw(kind, top, kids, [0.25, 0.25, 0.5] if kind == 'sum' else None)
+                for j, o in enumerate([root] + kids):
+                    o.id = j
+                n_exh += 1
+                if not compare(ctx, root, 'three-children'):
                     if ctx.n_new() >= 3:
                         return
     ctx.extra['exhaustive_small_nets'] = n_exh
